@@ -82,7 +82,7 @@ def handle (toks : List String) : String :=
     | some (d, coord, tol, mn, mx, ws, xs) =>
       let items := mkItems (chunk d ws.length (xs.map f32OfBits)) ws
       match split (withinTol (f64OfBits tol)) coord ws.sum items fuel 0
-          (f32OfBits mn) (f32OfBits mx) none with
+          (f32OfBits mn) (f32OfBits mx) none false with
       | .ok r => "ok " ++ exitName r.exit ++ " " ++ toString r.left.length ++ " " ++
           toString r.weightLeft ++ " " ++ f32Hex r.splitPos ++ " | " ++
           joinNats ((r.left ++ r.right).map (·.id))
